@@ -89,6 +89,8 @@ fn real_main() {
 				engines::input::run(&mut out, &mut rng.fork(), thorough);
 				engines::json::run(&mut out, &mut rng.fork(), thorough);
 				props::c02::run(&mut out, &mut rng.fork(), thorough);
+				// The binary: a file argument vs the same bytes on standard input.
+				props::cli_extra::c14_stdin_at_offset(&mut out, &mut rng.fork(), thorough);
 			}
 			"C04" => {
 				engines::msgpack::run_size(&mut out, &mut rng.fork(), thorough);
